@@ -50,6 +50,8 @@ fn rocket_receive_event(
     executor_state: &rocket::State<ExecutorStateArc>,
 ) -> (rocket::http::Status, String) {
     let form_data = params.into_inner();
+    #[cfg(rfsm_verif)]
+    let form_data = crate::verif_seams::collections::seeded_order(form_data);
 
     match executor_state.arc.lock() {
         Ok(state) => match state.sessions.get(&sessionid) {
@@ -276,7 +278,10 @@ impl BasicHTTPEventIOProcessor {
             .expect("server to launch");
         let shutdown = server.shutdown();
 
+        #[cfg(not(rfsm_verif))]
         tokio::spawn(async move { server.launch().await });
+        #[cfg(rfsm_verif)]
+        crate::verif_seams::http::launch(Box::new(server));
         info!("HTTP server started at {}:{}", ip_addr, port);
 
         BasicHTTPEventIOProcessor {
@@ -343,7 +348,10 @@ impl EventIOProcessor for BasicHTTPEventIOProcessor {
             .map(|(name, value)| (*name, value.as_str()))
             .collect();
 
+        #[cfg(not(rfsm_verif))]
         let r = ureq::post(target).send_form(form_data.as_slice());
+        #[cfg(rfsm_verif)]
+        let r = crate::verif_seams::http::post_form(target, form_data.as_slice());
 
         match r {
             Ok(_) => {}
